@@ -400,10 +400,14 @@ D0 = [("implicit none", "public"), ("private", "private"), ("PRIVATE", "private"
 SB_ACC = [("implicit none", None), ("private :: sb", "private"), ("public :: sb", "public"), ("PRIVATE SB", "private")]
 
 
-def _o5_files(d0, sbacc):
+VC_SPELL = ["integer, private :: vc", "integer, PRIVATE :: vc", "INTEGER, Private, save :: vc", "integer,private::vc"]
+VD_SPELL = ["integer, protected :: vd", "integer, PROTECTED :: vd", "real, Protected :: vd"]
+
+
+def _o5_files(d0, sbacc, vc="integer, private :: vc", vd="integer, protected :: vd"):
     return {
         "a.f90": ["module shapes_m", d0, sbacc,
-                  "integer :: va", "integer, public :: vb", "integer, private :: vc", "integer, protected :: vd",
+                  "integer :: va", "integer, public :: vb", vc, vd,
                   "type ta", "integer :: c", "end type ta", "type, private :: tb", "integer :: c", "end type tb",
                   "type, public :: tc", "integer :: c", "end type tc",
                   "type, private, extends(ta) :: td", "integer :: d", "end type td", "type, extends(ta), public :: te", "integer :: e", "end type te",
@@ -443,7 +447,7 @@ def replay_o5(w):
     old = sf.namelist
     sf.namelist = sf.NameSelector()
     try:
-        p = _parserh.project_concrete(_o5_files(w["d0"], w["sbacc"]), display=list(w["display"]), proc_internals=True)
+        p = _parserh.project_concrete(_o5_files(w["d0"], w["sbacc"], w.get("vc", VC_SPELL[0]), w.get("vd", VD_SPELL[0])), display=list(w["display"]), proc_internals=True)
         got = _o5_observe(p)
     finally:
         sf.namelist = old
@@ -470,12 +474,15 @@ def parsed_selection(ctx):
     def h(E):
         d0 = _CV.choice(E, "d0", D0)
         sb = _CV.choice(E, "sbacc", SB_ACC)
+        vc = _CV.choice(E, "vc", VC_SPELL)
+        vd = _CV.choice(E, "vd", VD_SPELL)
         disp = _CV.choice(E, "display", list(range(len(DISPLAYS))))
         display = disp.concretize()  # the setting is a list of words handed to ProjectSettings: one path per setting
         want = _choice.apply(lambda a, b: o5_expected(a, b, DISPLAYS[display]), d0[1], sb[1])
         E.e.snapshot = lambda m: {"d0": _choice.value_in_model(m, d0)[0], "sbacc": _choice.value_in_model(m, sb)[0],
+                                  "vc": _choice.value_in_model(m, vc), "vd": _choice.value_in_model(m, vd),
                                   "display": DISPLAYS[display], "expected": _choice.value_in_model(m, want)}
-        got = _parserh.project(_o5_files(d0[0], sb[0]), post=_o5_observe, display=list(DISPLAYS[display]), proc_internals=True)
+        got = _parserh.project(_o5_files(d0[0], sb[0], vc, vd), post=_o5_observe, display=list(DISPLAYS[display]), proc_internals=True)
         E.reachable("pruned")
         for k in sorted(got):
             E.require(_choice.apply(lambda w_, g=got[k], k=k: g == w_[k], want), f"{k}: listed entities differ from the display selection")
